@@ -422,8 +422,9 @@ func (e *Env) C05Space() {
 	if fd == nil || fd.Body == nil {
 		return
 	}
+	ca, la := e.stateAliases(info, fd)
 	for _, blk := range e.lineBreakBlocks(info, fd) {
-		eff := e.lineBreakEffect(info, blk)
+		eff := e.lineBreakEffectA(info, blk, ca, la)
 		good := eff.why == "" && len(eff.starts) == 1 && eff.starts[0] >= 1 && eff.exit == eff.starts[0]+1 && (!eff.markerSet || eff.markerVal == eff.exit)
 		e.Run.Check("R-SPACE", "applySpace: each line break records exactly one line start and advances the cursor", e.Prog.Pos(fd.Pos()), good,
 			fmt.Sprintf("effect of one line break over the entry cursor c0: line starts at c0+%v, cursor on exit c0+%d %s — expected one line start at c0+k (k ≥ 1: the byte stepped over for a separator) and exit cursor c0+k+1", eff.starts, eff.exit, eff.why))
